@@ -62,6 +62,60 @@ def stack_effect(st: ast.AST) -> tuple[dict[str, int], dict[str, str], dict[str,
     return delta, snaps, restores
 
 
+def remove_while_iterating(chk: Check, eng: Engine, rule: str) -> None:
+    """`for x in L: ... L.remove(x)` skips the element after every removal.  L may be named directly or be what an accessor returns
+    (`node.children()` returning `self.nodes`): both are resolved; iterating over a copy (`list(L)`, `L[:]`, `tuple(L)`) is fine."""
+    scope = ("fandango.language.grammar.node_visitors", NAV, "fandango.language.parse.slice_parties")
+    n = 0
+
+    def denotes(f, e: ast.AST) -> set[str]:
+        """attribute paths (`node.nodes`) the expression may alias"""
+        if isinstance(e, ast.Attribute):
+            return {norm(e)}
+        if isinstance(e, ast.Call) and isinstance(e.func, ast.Attribute) and not e.args:
+            recv = e.func.value
+            out = set()
+            for t in eng.env(f).type_of(recv):
+                modn, cn = t.split(":")
+                k = eng.ix.modules[modn].classes.get(cn)
+                fam = [k] + k.all_subclasses() if k is not None else []
+                for kk in fam:
+                    m = kk.lookup(e.func.attr)
+                    if m is None:
+                        continue
+                    for r in walk_local(m.node):
+                        if isinstance(r, ast.Return) and r.value is not None and self_attr(r.value):
+                            out.add(f"{norm(recv)}.{self_attr(r.value)}")
+            return out
+        return set()
+
+    for f in eng.ix.all_functions:
+        if not f.module.startswith(scope):
+            continue
+        for lp in walk_local(f.node):
+            if not isinstance(lp, ast.For):
+                continue
+            it = lp.iter
+            copied = isinstance(it, ast.Call) and isinstance(it.func, ast.Name) and it.func.id in ("list", "tuple", "sorted", "reversed") or \
+                (isinstance(it, ast.Subscript) and isinstance(it.slice, ast.Slice))
+            removals = [c for c in ast.walk(lp) if isinstance(c, ast.Call) and isinstance(c.func, ast.Attribute) and c.func.attr in ("remove", "pop", "insert") and isinstance(c.func.value, ast.Attribute)]
+            if not removals:
+                continue
+            n += 1
+            src = it.args[0] if copied and isinstance(it, ast.Call) and it.args else (it.value if copied and isinstance(it, ast.Subscript) else it)
+            aliases = denotes(f, src)
+            hit = [c for c in removals if norm(c.func.value) in aliases]
+            if hit and not copied:
+                chk.bad(rule, eng.relfile(f), lp.lineno, f.fq, f"`for {norm(lp.target)} in {short(it, 40)}` iterates the list that `{short(hit[0], 40)}` shrinks",
+                        "after each removal the iterator skips the next element: of two adjacent elements that must both be sliced away the second survives - the sliced grammar "
+                        "keeps a message of an excluded party, which the forecaster then offers", keyparts=f"remove-while-iterating|{norm(hit[0].func.value)}")
+            else:
+                chk.ok(rule, f.fq, lp.lineno, f"`for {norm(lp.target)} in {short(it, 40)}`: removals go to {sorted({norm(c.func.value) for c in removals})}, the loop runs over a copy" if copied else
+                       f"`for {norm(lp.target)} in {short(it, 40)}`: the list being shrunk is not the one iterated")
+    if n < 2:
+        raise AnalysisError(f"only {n} loop(s) that remove from a node list found in the slicing / navigation code")
+
+
 def run(chk: Check, eng: Engine) -> None:
     chk.rule("R19-a", "ContinuingNodeVisitor overrides the visit method of every node class a protocol grammar can contain", floor=6)
     chk.rule("R19-b", "the walk stacks are balanced on every path of every visit method whose result the caller continues with (no over-pop on any path)", floor=8)
@@ -458,6 +512,15 @@ def run(chk: Check, eng: Engine) -> None:
     if n_i < 2:
         raise AnalysisError(f"only {n_i} construction site(s) of RepetitionBoundsConstraint found in GrammarProcessor")
 
+    # ---- R19-j / R19-k ---------------------------------------------------------
+    # the grammar the forecaster parses histories with is produced by converters and slicers that rewrite node lists in place
+    chk.rule("R19-j", "values the state-grammar converter memoises do not depend on inputs (sender, recipient) their key does not cover", floor=1)
+    from .c12 import memo_input_rule
+    if memo_input_rule(chk, eng, "R19-j", scope=(NAV, "fandango.language.parse.slice_parties", "fandango.language.grammar.node_visitors")) == 0:
+        chk.ok("R19-j", NAV + ".*", 0, "no parameter-taking memo in the navigation / slicing code", nontrivial=False)
+    chk.rule("R19-k", "the slicer never removes from a node list while iterating over that same list", floor=2)
+    remove_while_iterating(chk, eng, "R19-k")
+
     # ---- R19-e ---------------------------------------------------------------
     pf = eng.cls(f"{NAV}.packetforecaster", "PathFinder")
     on = eng.method(pf, "onNonTerminalNodeVisit", inherited=False)
@@ -536,6 +599,8 @@ MUTANTS = [
     M("unfinished-round-does-not-end-the-walk", _CNV, "            if not continue_exploring:\n                # The last round present in the history is unfinished: what follows\n                # the repetition cannot come before that round is complete.\n                return False\n", "", "R19-g"),
     M("prefix-frame-test-inverted", _CNV, "                if tree_list is None or len(tree_list) == 0:\n                    continue\n", "                if tree_list is None or len(tree_list) != 0:\n                    continue\n", "R19-h"),
     M("comma-form-bounds-not-linked", "src/fandango/language/parse/convert.py", "                bounds_constraint.repetition_node = rep_node\n                rep_node.bounds_constraint = bounds_constraint\n", "                bounds_constraint.repetition_node = rep_node\n", "R19-i"),
+    M("slicer-iterates-the-live-list", "src/fandango/language/grammar/node_visitors/packet_truncator.py", "    def visitConcatenation(self, node: Concatenation) -> bool:\n        for child in list(node.children()):\n",
+      "    def visitConcatenation(self, node: Concatenation) -> bool:\n        for child in node.children():\n", "R19-k"),
     M("one-round-too-many", _CNV, "        if continue_exploring and tree_len < rep_max:\n", "        if continue_exploring and tree_len <= rep_max:\n", "R19-d"),
     M("leave-before-minimum", _CNV, "        if tree_len >= rep_min:\n            return True\n", "        if tree_len + 1 >= rep_min:\n            return True\n", "R19-d"),
     M("bounds-swapped", _CNV, "        rep_min = node.min\n        rep_max = node.max\n", "        rep_min = node.max\n        rep_max = node.min\n", "R19-d"),
